@@ -24,3 +24,4 @@ func vFreeze(x any, tag string)                      { panic("intrinsic") }
 func vCatch(f func()) (bool, string)                 { panic("intrinsic") }
 func vConcretize(v int64) int64                      { panic("intrinsic") }
 func vUF3(name string, a, b, c int64) float64        { panic("intrinsic") }
+func vKnown(key string, c bool)                      { panic("intrinsic") }
